@@ -620,6 +620,8 @@ def shape_of(t):
         return 'other'
     if t.is_comb():
         f, args = t.strip_comb()
+        if head(t) in ('bit0', 'bit1', 'of_nat'):
+            return 'numeral-internals'       # one family: a numeral constructor applied to a non-numeral
         return '%s(%s)' % (head(t), ','.join(head(a) for a in args))
     return head(t)
 
